@@ -59,6 +59,16 @@ def fd_mask(cls, case, pts, h):
     return np.ones(len(x), dtype=bool)
 
 
+def _bc_noise(x, nu, lam, y):
+    """expm1(lam*log(x + nu))/lam (log(x + nu) at lam = 0): the argument of
+    expm1 carries the rounding of x + nu (relative eps, more when x and nu
+    cancel) and of the logarithm; expm1 and the division add relative eps.
+    No 1/|lam| amplification: nothing is subtracted from a power."""
+    z = x + nu
+    darg = 1 + np.abs(np.log(z)) + (np.abs(x) + abs(nu)) / z
+    return 4 * eps * (np.abs(y) + np.power(z, lam) * darg)
+
+
 def noise_model(cls, t, case, x, y):
     """A-priori magnitude of the rounding error of forward(x)."""
     if cls == "Identity":
@@ -68,21 +78,16 @@ def noise_model(cls, t, case, x, y):
         return eps * (np.abs(y) + (1 + nu / (x + nu)) / abs(t.basefactor))
     if cls in ("BoxCox2", "BoxCox1lam", "BoxCox1nu"):
         nu, lam = tc.getp(t, "nu"), tc.getp(t, "lam")
-        # (z^lam - 1)/lam: the subtraction amplifies rounding by 1/|lam|
-        amp = 1. / min(1., abs(lam)) if abs(lam) > EPS else 1.
-        return eps * (np.abs(y) + 1
-                      + (1 + np.power(x + nu, lam)) * amp
-                      * (1 + nu / (x + nu))
-                      * (1 + np.abs(np.log(x + nu))))
+        return _bc_noise(x, nu, lam, y)
     if cls == "BoxCox2sym":
         nu, lam = tc.getp(t, "nu"), tc.getp(t, "lam")
-        y0 = abs(math.log(nu)) if abs(lam) <= EPS \
-            else abs(math.expm1(lam * math.log(nu)) / lam)
-        z = np.abs(x) + nu
-        amp = 1. / min(1., abs(lam)) if abs(lam) > EPS else 1.
-        return eps * (np.abs(y) + y0 + 1
-                      + (1 + np.power(z, lam)) * amp * 2
-                      * (1 + np.abs(np.log(z))))
+        y0 = math.log(nu) if abs(lam) <= EPS \
+            else math.expm1(lam * math.log(nu)) / lam
+        # BC(|x|) - BC(0): both terms carry their own rounding
+        yb = np.abs(y) + abs(y0)
+        return _bc_noise(np.abs(x), nu, lam, yb) \
+            + _bc_noise(np.zeros(1), nu, lam, np.array([abs(y0)]))[0] \
+            + eps * yb
     if cls == "YeoJohnson":
         nu, sc, lam = (tc.getp(t, "nu"), tc.getp(t, "scale"),
                        tc.getp(t, "lam"))
@@ -255,6 +260,13 @@ def monotone_check(t, case, setting, k, labels):
     # second point of each pair: move by rel * local scale
     x2 = x + pts["loc"] * rel
     allx = np.unique(np.concatenate([x, x2]))
+    if cls == "BoxCox2sym":
+        # through the centre of symmetry: 0 and points on both sides of it,
+        # from 1e-4 down to 1e-14 of the shift
+        nu_ = tc.getp(t, "nu")
+        hs = nu_ * 10.0 ** -np.array([4., 8., 10., 12., 14.])
+        allx = np.unique(np.concatenate([allx, [0.], hs, -hs]))
+        labels.append("pairs:through-zero")
     # keep the points in the domain
     if cls in ("Log", "BoxCox2", "BoxCox1lam", "BoxCox1nu", "Reciprocal"):
         nu = tc.getp(t, "nu")
